@@ -500,3 +500,33 @@ def r7(ctx):
     first = rel[0] if rel else None
     ok = first is not None and any("reliability" in t for t, p in atom_texts(facts_at(first)))
     ctx.check("LocalScheduleInterpreter.process_task:faulty-configuration-not-evaluated", ok, where(m, pt or it.node), "a schedule with a configuration fault must not drive the present value")
+
+
+@rule("C20.R8", "the clock the interpreter reads gives BACnet dates and times: year - 1900, month, day, weekday 1 (Monday) .. 7 (Sunday); hour, minute, second", floor=2, engines="E5 evaluation on a sample struct_time")
+def r8(ctx):
+    prog = ctx.prog
+    pm = prog.module("primitivedata")
+    # 2024-03-13 10:20:30, a Wednesday: tm_wday 2, BACnet weekday 3
+    sample = (2024, 3, 13, 10, 20, 30, 2, 73, 0)
+    names = ("tm_year", "tm_mon", "tm_mday", "tm_hour", "tm_min", "tm_sec", "tm_wday", "tm_yday", "tm_isdst")
+    for cname, want in (("Date", (124, 3, 13, 3)), ("Time", (10, 20, 30))):
+        c = prog.cls("primitivedata", cname)
+        f = c.methods.get("now")
+        if f is None:
+            raise AnchorMissing("%s.now" % cname)
+        ev = Evaluator(prog, pm, c)
+        src = [s_ for s_ in walk_shallow(f) if isinstance(s_, ast.Assign) and isinstance(s_.value, ast.Call) and norm(s_.value.func) in ("time.localtime", "localtime")]
+        st = [s_ for t_, s_ in stores_in(f) if is_self_attr(t_, "value") and isinstance(s_, ast.Assign)]
+        ok = len(src) == 1 and len(st) == 1 and isinstance(src[0].targets[0], ast.Name)
+        got = None
+        if ok:
+            nm = src[0].targets[0].id
+            env = {nm: sample, "when": 1710325230.25}
+            for i_, a_ in enumerate(names):
+                env["%s.%s" % (nm, a_)] = sample[i_]
+            try:
+                got = ev.value(st[0].value, env)
+            except (NotConst, TypeError, ValueError, IndexError) as ex:
+                got = "not evaluable: %s" % ex
+            ok = isinstance(got, tuple) and tuple(got[:len(want)]) == want
+        ctx.check("%s.now:fields" % cname, ok, where(pm, f), "for Wednesday 2024-03-13 10:20:30 the value must start with %r (found %r)" % (want, got))
